@@ -2,7 +2,7 @@
     Only ExtrOcamlBasic (bool/option/list/prod/unit/sumbool to OCaml natives);
     nat, positive, N and Z stay Coq datatypes.  No Extract Constant. *)
 From Coq Require Import Extraction ExtrOcamlBasic ExtrOcamlNativeString ZArith List.
-From RV Require Import Model.Acl Model.Bytes Model.Md4 Model.Checksum Model.Delta Model.Sender Model.Mux Model.Flist Model.Generator Model.Popt.
+From RV Require Import Model.Acl Model.Bytes Model.Md4 Model.Checksum Model.Delta Model.Sender Model.Mux Model.Flist Model.Generator Model.Popt Model.Tree.
 Extraction Language OCaml.
 Extraction "model.ml"
   Z.add Z.mul Z.sub Z.opp Z.compare Z.of_nat Z.to_nat Z.eqb Z.ltb Z.div Z.modulo
@@ -11,4 +11,5 @@ Extraction "model.ml"
   read_full bufio_read mux_read read_msg
   recv_file_list send_file_list path_clean sort_entries find_in_list
   gen_decision gen_sums enc_sums file_transfer
-  parse_arguments server_options wire_view getf setf.
+  parse_arguments server_options wire_view getf setf
+  delete_files select_all excluded parse_rule render lookup.
